@@ -233,8 +233,17 @@ Definition vlog_off (off : N) : N := off mod 2 ^ 55.
 Definition off_negative (off : N) : bool := 2 ^ 63 <=? off mod 2 ^ 64.
 
 (* vLog.ReadAt(b, offset) with len(b) = n > 0: short read = io.EOF *)
+(* SWITCH (one line) for fixes/C09-export-eof-beyond-end.diff: once that patch is committed in /repo,
+   set this constant to true. readValueAt then answers a read that starts at or runs past the END of
+   the value log with ErrCorruptedData instead of io.EOF, so ExportTx no longer takes it for a value
+   truncated by retention. (The logs of this model are whole byte strings: no chunk is ever
+   discarded, so every short read is a read past the end.) Theorems that hold after the switch are
+   proved, under the hypothesis  fix_export_eof = true,  in Corrupt/Switch.v. *)
+Definition fix_export_eof : bool := false.
+
 Definition read_at (log : bytes) (off n : N) : res bytes :=
-  if off + n <=? len log then Ok (take n (drop off log)) else Err EEOF.
+  if off + n <=? len log then Ok (take n (drop off log))
+  else Err (if fix_export_eof then ECorruptedData else EEOF).
 
 (* fetchVLog; in the multi-vlog branch a missing map entry is reported as corrupted data (before
    commit c6a3ff8 it was dereferenced) *)
